@@ -39,6 +39,10 @@ def cells(tier, seed):
         for d in ['mol', 'g', 'L', 'U']:
             out.append({'id': f"concentration/{n}_{d}", 'fn': 'h_concentration', 'round': 'lite', 'max_paths': 50,
                         'params': {'n': n, 'd': d}})
+    # small values written with small prefixes keep their meaning to six significant digits (delta rounding model)
+    for group in ['molar', 'molal', 'mass', 'volume']:
+        out.append({'id': f"concentration-precision/{group}", 'fn': 'h_conc_precision', 'round': 'delta', 'max_paths': 50,
+                    'params': {'group': group}})
     out.append({'id': "concentration/special", 'fn': 'h_special', 'round': 'lite', 'max_paths': 50, 'params': {}})
     out.append({'id': "equivalent/parse", 'fn': 'h_equiv_parse', 'round': 'lite', 'max_paths': 50, 'params': {}})
     for sc in ['ctor', 'transfer', 'create_solution', 'dilute', 'get_concentration', 'fill_to', 'create_solution_from/molar',
@@ -72,12 +76,32 @@ def h_concentration(h):
             got = U.parse_concentration(f"{v} {pn}{n}/{pd}{d}")
             h.require('concentration:units', h.true(got[1] == n and got[2] == d), region=f"{n}/{d}")
             want = v * PREFIX[pn] / PREFIX[pd]
-            h.require('concentration:value', h.eq(got[0], want, h.rs(h.ulp)), region=f"{n}/{d}",
+            h.require('concentration:value', h.eq(got[0], want), region=f"{n}/{d}",
                       detail=f"'v {pn}{n}/{pd}{d}'")
     for pn, pd in [('m', 'u'), ('', 'k'), ('µ', ''), ('da', 'n')]:
         got = U.parse_concentration(f"{v} {pn}{n}/{w} {pd}{d}")
         h.require('concentration:value-with-denominator', h.eq(got[0] * w * PREFIX[pd], v * PREFIX[pn], h.rs(h.ulp * w * 2)),
                   region=f"{n}/{d}", detail=f"'v {pn}{n}/w {pd}{d}' = v*{PREFIX[pn]}/(w*{PREFIX[pd]})")
+
+
+SMALL = {
+    'molar': [('nM', Fr(1, 10**9)), ('nmol/L', Fr(1, 10**9)), ('umol/kL', Fr(1, 10**9)), ('nmol/10 L', Fr(1, 10**10))],
+    'molal': [('umol/kg', Fr(1, 10**9)), ('nmol/g', Fr(1, 10**9)), ('um', Fr(1, 10**9)), ('nmol/kg', Fr(1, 10**12))],
+    'mass': [('ug/kg', Fr(1, 10**9)), ('ng/g', Fr(1, 10**9)), ('ng/L', Fr(1, 10**9)), ('ug/kL', Fr(1, 10**9))],
+    'volume': [('nL/L', Fr(1, 10**9)), ('uL/kL', Fr(1, 10**9)), ('nL/mol', Fr(1, 10**9))],
+}
+
+
+def h_conc_precision(h):
+    """'0.25 nM' denotes 2.5e-10 mol/L: the parsed value agrees with the denoted one to a millionth of its size"""
+    U = h.env.Unit
+    v = h.real('v', Fr(1, 100), 1) + h.const('0.0012345')
+    h.outcome = 'ok'
+    for spelling, factor in SMALL[h.p['group']]:
+        got = U.parse_concentration(f"{v} {spelling}")
+        # (compared in the unit as written, so that the comparison itself is well scaled in floats)
+        h.require('concentration:significant-digits', h.eq(got[0] / factor, v, v * Fr(1, 10**6)), region=spelling,
+                  detail=f"'v {spelling}' denotes v * {float(factor):g} in base units")
 
 
 def h_special(h):
@@ -93,7 +117,7 @@ def h_special(h):
     for spelling, units, factor in cases:
         got = U.parse_concentration(f"{v} {spelling}")
         h.require('special:units', h.true((got[1], got[2]) == units), region=spelling, detail=f"'v {spelling}' -> {got[1]}/{got[2]}")
-        h.require('special:value', h.eq(got[0], v * factor, h.rs(h.ulp)), region=spelling,
+        h.require('special:value', h.eq(got[0], v * factor), region=spelling,
                   detail=f"'v {spelling}' denotes v * {factor} {units[0]}/{units[1]}")
 
 
